@@ -95,14 +95,20 @@ type world struct {
 	quiesce func()
 	opNo    int64
 	setOp   func(int64)
+	direct  bool // the current op bypasses the stack (pre-population)
+	// noFreshIDs: resuming a session the stack has not issued an id for is skipped
+	noFreshIDs bool
 }
 
 func (w *world) emit(e ev) {
 	w.nEvents++
+	if e["op"] != "snap" && e["op"] != "reset" {
+		e["direct"] = w.direct
+	}
 	if w.quiesce != nil {
 		w.quiesce()
 	}
-	if w.rec != nil && e["op"] != "snap" && e["op"] != "reset" {
+	if w.rec != nil && e["op"] != "snap" && e["op"] != "reset" && !w.direct {
 		e["backend"] = w.rec.take(w.opNo)
 	}
 	if err := w.out.Encode(e); err != nil {
@@ -218,6 +224,11 @@ func (w *world) step(ctx context.Context, op Op) {
 	case "Resume":
 		id, ok := w.ids[op.U]
 		if !ok {
+			if w.noFreshIDs {
+				// a session id only means something to the layer that issued it
+				e["op"] = "skip"
+				break
+			}
 			id = "fresh-" + op.U
 		}
 		bw, err := reg.PushBlobChunkedResume(ctx, op.R, id, int64(op.Off), op.Chunk)
